@@ -36,7 +36,7 @@ S0 == [fileVer |-> 1, evPending |-> FALSE, timerArmed |-> FALSE, wlExited |-> FA
        got |-> [c \in Clients |-> 0], recv |-> [c \in Clients |-> <<>>], gone |-> [c \in Clients |-> FALSE]]
 \* monitor-only state: interval bounds and harness-side observations
 X0 == [startedVer |-> 1, committedVer |-> 1, floorAtTake |-> 1, resAtBegin |-> [c \in Clients |-> 0],
-       woken |-> {}, seen |-> [c \in Clients |-> <<>>], shutting |-> FALSE, sawClosed |-> FALSE,
+       woken |-> {}, seen |-> [c \in Clients |-> <<>>], tried |-> [c \in Clients |-> <<>>], shutting |-> FALSE, sawClosed |-> FALSE,
        \* channel contents, exact in spite of late receive announcements: sends that succeeded minus receives announced
        reqTok |-> 1, wakeTok |-> [c \in Clients |-> 0]]
 
@@ -70,8 +70,10 @@ Step(e) ==
          /\ Chk(e.handlersAlive = 0, "C45", "client-handler-alive-after-shutdown-returned", e.handlersAlive)
          /\ Chk(e.connsClosed = 1, "C45", "client-connection-left-open-after-shutdown", e)
          /\ Chk(e.returned = 1 => x.sawClosed, "DRIFT", "run-returned-without-closed-event", e)
-         /\ Chk(\A c \in Clients : IsPrefixSeq(x.seen[c], s.recv[c]), "C44", "client-received-something-the-server-did-not-write",
-                [c \in {d \in Clients : x.seen[d] # <<>>} |-> <<x.seen[c], s.recv[c]>>])
+         \* a write that returned an error (the context was cancelled while it was in flight) may still have reached the
+         \* client: what a client saw is a prefix of what the server tried to write, not only of what it knows it wrote
+         /\ Chk(\A c \in Clients : IsPrefixSeq(x.seen[c], x.tried[c]), "C44", "client-received-something-the-server-did-not-write",
+                [c \in {d \in Clients : x.seen[d] # <<>>} |-> <<x.seen[c], x.tried[c]>>])
          /\ UNCHANGED <<tid, s, x>>
   \* ------------------------------------------------------------------ watchLoop
     [] e.ev = "fsevent" -> s' = [s EXCEPT !.evPending = FALSE, !.timerArmed = TRUE] /\ UNCHANGED <<tid, x>>
@@ -124,7 +126,7 @@ Step(e) ==
             THEN /\ Chk(Len(s.recv[e.c]) = 0 \/ e.v >= Last(s.recv[e.c]), "C44", "older-result-written-after-newer", <<e.c, s.recv[e.c], e.v>>)
                  /\ s' = [s EXCEPT !.recv[e.c] = Append(@, e.v), !.pc[e.c] = "waiting"]
             ELSE s' = [s EXCEPT !.pc[e.c] = "exiting"]
-         /\ UNCHANGED <<tid, x>>
+         /\ x' = [x EXCEPT !.tried[e.c] = Append(@, e.v)] /\ UNCHANGED tid
     [] e.ev = "woke" -> /\ Handler(e.c) /\ s' = [s EXCEPT !.wake[e.c] = (x.wakeTok[e.c] - 1 > 0), !.pc[e.c] = "loop"]
                         /\ x' = [x EXCEPT !.wakeTok[e.c] = @ - 1] /\ UNCHANGED tid
     [] e.ev = "cancelled" -> /\ Handler(e.c) /\ s' = [s EXCEPT !.pc[e.c] = "exiting"] /\ UNCHANGED <<tid, x>>
